@@ -62,6 +62,12 @@ func runC09(c *an.Ctx) {
 	c.Min("R09.2", 8)
 	c.Min("R09.3", 4)
 	c.Min("R09.4", 3)
+	shareAs(c, "R03.3", "R09.12", r033, func(k string) bool { return strings.Contains(k, "Delete") }) // a removal is announced before the next write of that id can commit (shared with R03.3)
+	c.Min("R09.12", 1)
+	r062filters(c, "R09.13") // the projected copy of a change keeps old and new value: old values chain per id under a read mask too (shared with R06.2)
+	c.Min("R09.13", 2)
+	r034(c, "R09.14") // what is announced is what was stored (shared with R03.4)
+	c.Min("R09.14", 2)
 	r0911(c, "R09.11")
 	c.Min("R09.11", 3)
 }
